@@ -312,7 +312,24 @@ def sp_coo_array(interp, args, kwargs):
     a = args[0]
     shape = kwargs.get("shape")
     if isinstance(a, Sparse):
+        if a.pattern is None:
+            out = Sparse("coo", a.nrows, a.ncols, dense=a._dense, rowsum=a._rowsum, canonical=True)
+            return out
         return sparse_like(ctx, a, fmt="coo")
+    if isinstance(a, Mat):
+        # coo_array(dense): stores exactly the non-zero entries; dense view = the array
+        src = a.buf.fn
+        out = Sparse("coo", a.rows, a.cols, dense=lambda c, i, j: Num(as_real(to_num(src(i, j))), False), canonical=True)
+        out.from_dense = True
+        return out
+    if isinstance(a, Vec) and a.kind == "list" and conc(a.length) == 1:
+        # coo_array([[x]], shape=(1,1))
+        row0 = vget(ctx, a, 0)
+        if isinstance(row0, Vec) and conc(row0.length) == 1:
+            x = vget(ctx, row0, 0)
+            t = truth(ctx, x)
+            val = z3.If(t, z3.RealVal(1), z3.RealVal(0)) if not isinstance(t, bool) else z3.RealVal(1 if t else 0)
+            return Sparse("coo", 1, 1, dense=lambda c, i, j: Num(val, False), canonical=True)
     if isinstance(a, Tup) and len(a.items) == 2 and isinstance(a.items[1], Tup):
         data, (row, col) = a.items[0], a.items[1].items
         data = iter_to_vec(interp, data)
@@ -472,3 +489,13 @@ def _sp_dot(interp, self: Sparse, args, kwargs):
         out.scaled_rows_of = (self, B)
         return out
     raise Unsupported("sparse dot (only diagonal . sparse is modelled)")
+
+
+@method("Sparse", "toarray", "todense")
+def _sp_toarray(interp, self: Sparse, args, kwargs):
+    ctx = interp.ctx
+    d = _dense_snapshot(ctx, self)
+    return Mat(self.nrows, self.ncols, lambda i, j: d(ctx, i, j), elem="real")
+
+
+METHODS[("Sparse", "@iop:+")] = METHODS[("Sparse", "@op:+")]
